@@ -195,7 +195,8 @@ package runtime
 //@ pred vmWF(vm *VM) =
 //@   vm != nil && 0 <= vm.csCount && vm.csCount == len(vm.callStack) &&
 //@   (forall i int :: 0 <= i && i < vm.csCount ==> vm.callStack[i] != nil && has(vm.valueStack, vm.callStack[i].module.id)) &&
-//@   (forall k int :: has(vm.valueStack, k) ==> vm.valueStack[k] != nil)
+//@   (forall k int :: has(vm.valueStack, k) ==> vm.valueStack[k] != nil) &&
+//@   (forall n string :: has(vm.externalLibs, n) ==> vm.externalLibs[n] != nil)
 //@ typeinv VM vmWF(self)
 
 // a frame is active and the current module has a scope: what every evaluator step needs
@@ -375,9 +376,12 @@ package runtime
 //@ method (*VM).FindModuleByName
 //@   requires vmWF(vm)
 //@   pure
+//@   ensures !has(vm.moduleGraph.moduleNameMap, name) ==> result == nil
+//@   ensures has(vm.moduleGraph.moduleNameMap, name) ==> result == (vm.moduleGraph.moduleNameMap[name] >= 0 && vm.moduleGraph.moduleNameMap[name] < len(vm.moduleGraph.modules) ? vm.moduleGraph.modules[vm.moduleGraph.moduleNameMap[name]] : nil)
 //@ method (*VM).FindLibrary
 //@   requires vmWF(vm)
 //@   modifies nothing
+//@   ensures [found-or-error] (r1 == nil ==> has(vm.externalLibs, name) && r0 == vm.externalLibs[name]) && (r1 != nil ==> !has(vm.externalLibs, name) && r0 == nil)
 //@ method (*VM).GetModuleCodeFinder
 //@   pure
 //@   ensures result == vm.moduleCodeFinder
@@ -388,15 +392,15 @@ package runtime
 //@   modifies nothing
 //@   ensures fresh(result) && result != nil
 //@ method (*Library).RegisterFunction
-//@   requires l != nil
+//@   requires l != nil && fn != nil && fn.ptr != 0
 //@   modifies map(l.exportValues)
 //@   ensures result == l
 //@ method (*Library).RegisterClass
-//@   requires l != nil
+//@   requires l != nil && ref != nil && ref.ptr != 0
 //@   modifies map(l.exportValues)
 //@   ensures result == l
 //@ method (*Library).addExportValue
-//@   requires l != nil
+//@   requires l != nil && value != nil && value.ptr != 0
 //@   modifies map(l.exportValues)
 //@ method (*Library).GetAllExportValues
 //@   pure
@@ -407,3 +411,80 @@ package runtime
 
 // ---- C11: determinism inventories ----
 //@ maprange (*ModuleGraph).checkCircularDepedencyDFS#1 assumed : the result is "the import graph has a cycle", which does not depend on the node the search starts from (graph theory; the DFS itself is not under contract)
+
+// ---- modules (C15) ----
+// every registered name maps to an existing module
+//@ pred mgWF(g *ModuleGraph) = g != nil && g.moduleNameMap != nil &&
+//@   (forall n string :: has(g.moduleNameMap, n) ==> 0 <= g.moduleNameMap[n] && g.moduleNameMap[n] < len(g.modules)) &&
+//@   (forall i int :: 0 <= i && i < len(g.modules) ==> g.modules[i] != nil)
+//@ typeinv ModuleGraph mgWF(self)
+
+//@ func NewModuleGraph
+//@   modifies nothing
+//@   ensures fresh(result) && mgWF(result) && len(result.modules) == 0 && len(result.graph) == 0
+
+//@ method (*ModuleGraph).AddModule
+//@   requires mgWF(g)
+//@   modifies g.modules, g.graph, mem(g.modules), mem(g.graph), map(g.moduleNameMap)
+//@   ensures mgWF(g)
+//@   ensures [new-module] result == old(len(g.modules)) && len(g.modules) == old(len(g.modules)) + 1 && fresh(g.modules[result]) &&
+//@             g.modules[result].id == result && g.modules[result].fullName == name && g.modules[result].program == program
+//@   ensures [registered] has(g.moduleNameMap, name) && g.moduleNameMap[name] == result
+//@   ensures [edge-recorded] srcModuleID >= 0 ==> len(g.graph) == old(len(g.graph)) + 1 && g.graph[old(len(g.graph))][0] == srcModuleID && g.graph[old(len(g.graph))][1] == result
+//@   ensures [main-has-no-edge] srcModuleID < 0 ==> len(g.graph) == old(len(g.graph))
+//@   ensures [others-kept] forall i int :: 0 <= i && i < old(len(g.modules)) ==> g.modules[i] == old(g.modules[i])
+//@   ensures [other-names-kept] forall n string :: n != name ==> has(g.moduleNameMap, n) == old(has(g.moduleNameMap, n)) && g.moduleNameMap[n] == old(g.moduleNameMap[n])
+
+//@ method (*ModuleGraph).AddDependency
+//@   requires mgWF(g) && 0 <= depModuleID && depModuleID < len(g.modules)
+//@   modifies g.graph, mem(g.graph), map(g.moduleNameMap)
+//@   ensures mgWF(g)
+//@   ensures [edge-recorded] len(g.graph) == old(len(g.graph)) + 1 && g.graph[old(len(g.graph))][0] == srcModuleID && g.graph[old(len(g.graph))][1] == depModuleID
+//@   ensures [registered] has(g.moduleNameMap, name) && g.moduleNameMap[name] == depModuleID
+//@   ensures [other-names-kept] forall n string :: n != name ==> has(g.moduleNameMap, n) == old(has(g.moduleNameMap, n)) && g.moduleNameMap[n] == old(g.moduleNameMap[n])
+
+// the depth-first search itself is not under contract: its answer is left unspecified (DESIGN II.1, C15)
+//@ method (*ModuleGraph).CheckCircularDepedency
+//@   modifies nothing
+//@ method (*ModuleGraph).checkCircularDepedencyDFS
+//@   trusted
+//@   modifies nothing
+
+//@ method (*VM).AllocateModule
+//@   requires vmWF(vm)
+//@   modifies vm.csModuleID, vm.moduleGraph.modules, vm.moduleGraph.graph, mem(vm.moduleGraph.modules), mem(vm.moduleGraph.graph), map(vm.moduleGraph.moduleNameMap)
+//@   ensures result != nil
+//@   ensures [registered] has(vm.moduleGraph.moduleNameMap, name) && vm.moduleGraph.modules[vm.moduleGraph.moduleNameMap[name]] == result
+//@   ensures [known-module-is-returned-as-is] old(has(vm.moduleGraph.moduleNameMap, name)) ==> result == old(vm.moduleGraph.modules[vm.moduleGraph.moduleNameMap[name]]) &&
+//@             vm.csModuleID == old(vm.csModuleID) && len(vm.moduleGraph.modules) == old(len(vm.moduleGraph.modules)) && len(vm.moduleGraph.graph) == old(len(vm.moduleGraph.graph))
+//@   ensures [new-module-becomes-current] !old(has(vm.moduleGraph.moduleNameMap, name)) ==> fresh(result) && result.program == program && result.fullName == name && vm.csModuleID == result.id
+
+//@ method (*VM).CheckDepedency
+//@   requires vmWF(vm)
+//@   modifies vm.moduleGraph.graph, mem(vm.moduleGraph.graph), map(vm.moduleGraph.moduleNameMap)
+//@   ensures mgWF(vm.moduleGraph)
+//@   ensures [unknown-name-needs-no-check] !old(has(vm.moduleGraph.moduleNameMap, name)) ==> result == nil
+//@   ensures [cycle-is-reported] @ModuleGraph_CheckCircularDepedency#1.done && @ModuleGraph_CheckCircularDepedency#1.r0 ==> isRuntimeError(result, 63)
+//@   ensures [no-cycle-no-error] @ModuleGraph_CheckCircularDepedency#1.done && !@ModuleGraph_CheckCircularDepedency#1.r0 ==> result == nil
+//@   ensures [known-name-is-checked] old(has(vm.moduleGraph.moduleNameMap, name)) ==> @ModuleGraph_CheckCircularDepedency#1.done
+//@   assert call [edge-recorded-before-the-cycle-check] ModuleGraph_CheckCircularDepedency#1: len(vm.moduleGraph.graph) >= 1 &&
+//@             vm.moduleGraph.graph[len(vm.moduleGraph.graph) - 1][0] == vm.csModuleID && vm.moduleGraph.graph[len(vm.moduleGraph.graph) - 1][1] == vm.moduleGraph.moduleNameMap[name]
+
+// the code finder is supplied by the embedding program (Interpreter.LoadFile / LoadScript): either source text or an error
+//@ functype ModuleCodeFinder(isMain, info) (src, err)
+//@   modifies nothing
+//@   ensures err == nil || err.ptr != 0
+
+//@ external strings.HasPrefix(s, prefix) (b)
+//@   pure
+//@   ensures b ==> len(s) >= len(prefix)
+//@ external strings.Split(s, sep) (r)
+//@   modifies nothing
+//@ func ParseLibName
+//@   modifies nothing
+//@   ensures result.OriginalName == libName && (result.LibType == LIB_TYPE_STD || result.LibType == LIB_TYPE_CUSTOM)
+
+//@ method (*VM).LoadExternalLibs
+//@   requires vmWF(vm) && (forall i int :: 0 <= i && i < len(libs) ==> libs[i] != nil)
+//@   modifies map(vm.externalLibs)
+//@   loop 1 invariant vmWF(vm)
